@@ -75,11 +75,12 @@ class _Base:
 class FifoSystem(_Base):
     """choice = (push_req, push_data, pop_req)"""
 
-    def __init__(self, sim, cfg):
+    def __init__(self, sim, cfg, sfx="", bind=True):
         _, T, n, tx, rx, ctxs = cfg
         self.cfg = cfg
         self.n = n
-        self.exact = tx == 0 and rx == 0
+        self.sfx = sfx
+        self.exact = tx == 0 and rx == 0 and cfg[0] == "fifo"
         self.views = ctxs in ("2o", "2b")
         self.m = FifoModel(n)
         vals = range(1 << W.width(T))
@@ -88,7 +89,12 @@ class FifoSystem(_Base):
         self.n_push = 0
         self.n_pop = 0
         self.n_both = 0
-        self._bind(sim, ("push_req", "push_data", "pop_req"))
+        if bind:
+            self._bind(sim, ("push_req", "push_data", "pop_req"))
+        else:
+            self.sim = sim
+            self.sid = {k: v[0] for k, v in sim.ports.items()}
+            self.ty = {k: v[1] for k, v in sim.ports.items()}
 
     def snapshot(self):
         return (self.sim.snapshot(), self.m.q)
@@ -148,7 +154,13 @@ class FifoSystem(_Base):
         msg = self._drive((("push_req", push), ("push_data", data), ("pop_req", pop)))
         if msg:
             return msg
-        ack, valid, pdata = self.get("push_ack"), self.get("pop_valid"), self.get("pop_data")
+        return self.after_clock(ch)
+
+    def after_clock(self, ch):
+        push, data, pop = ch
+        m = self.m
+        sfx = self.sfx
+        ack, valid, pdata = self.get("push_ack" + sfx), self.get("pop_valid" + sfx), self.get("pop_data" + sfx)
         if ack is None or valid is None:
             return f"push_ack={ack} pop_valid={valid}: undefined (the wrapper's gate read an undriven full()/empty())"
         room, avail = not m.full(), not m.empty()
@@ -189,6 +201,71 @@ class FifoSystem(_Base):
         if self.exact:
             return self.check_static()
         return None
+
+
+class Fifo2System(_Base):
+    """two delayed Fifos sharing the sender context and the receiver context; choice = choice of Fifo 0 + choice of Fifo 1"""
+
+    exact = False
+    views = False
+
+    def __init__(self, sim, cfg):
+        self.cfg = cfg
+        self._bind(sim, ("push_req0", "push_data0", "pop_req0", "push_req1", "push_data1", "pop_req1"))
+        self.f = [FifoSystem(sim, cfg, sfx=str(i), bind=False) for i in (0, 1)]
+        self.menu = [a + b for a in self.f[0].menu for b in self.f[1].menu]
+        self.m = self.f[0].m   # capacity
+
+    def snapshot(self):
+        return (self.sim.snapshot(), self.f[0].m.q, self.f[1].m.q)
+
+    def restore(self, s):
+        self.sim.restore(s[0])
+        self.f[0].m.q, self.f[1].m.q = s[1], s[2]
+
+    def choices(self):
+        return self.menu
+
+    def observe(self):
+        return tuple(self.get(n + i) for i in "01" for n in ("push_ack", "pop_valid", "pop_data")) + \
+            (len(self.f[0].m.q), len(self.f[1].m.q))
+
+    def apply(self, ch):
+        msg = self._drive(tuple((n + str(i), ch[3 * i + k]) for i in (0, 1)
+                                for k, n in enumerate(("push_req", "push_data", "pop_req"))))
+        if msg:
+            return msg
+        for i in (0, 1):
+            msg = self.f[i].after_clock(ch[3 * i:3 * i + 3])
+            if msg:
+                return f"Fifo {i} (of two delayed Fifos sharing both contexts): {msg}"
+        return None
+
+    @property
+    def seen_occ(self):
+        return self.f[0].seen_occ & self.f[1].seen_occ
+
+    n_push = property(lambda self: self.f[0].n_push + self.f[1].n_push)
+    n_pop = property(lambda self: self.f[0].n_pop + self.f[1].n_pop)
+    n_both = property(lambda self: self.f[0].n_both + self.f[1].n_both)
+
+
+def liveness_fifo2(system, space, out):
+    cap = system.m.cap
+    states = list(space.states)
+    both = lambda a: a + a
+    for kind, ch, goal, text in (
+            ("drain", both((0, 0, 1)), lambda s: not s.f[0].m.q and not s.f[1].m.q,
+             "with both receivers requesting a pop every clock (no push) the pending elements are never all delivered"),
+            ("fill", both((1, 0, 0)), lambda s: len(s.f[0].m.q) == cap and len(s.f[1].m.q) == cap,
+             f"with both senders requesting a push every clock (no pop) the two Fifos never both hold N-1={cap} elements")):
+        bad, steps = eventually(system, states, lambda s: ch, goal)
+        out["liveness_steps"] += steps
+        if bad is not None:
+            s, msg = bad
+            system.restore(s)
+            return (kind, space.trace_to(s), msg or f"pending {system.f[0].m.q} / {system.f[1].m.q}: {text}")
+    return None
 
 
 class StackSystem(_Base):
@@ -286,7 +363,7 @@ def build(cfg):
     except VhdlSyntaxError as e:
         return "static", f"emitted VHDL does not parse: {e}"
     sim = d.sim()  # (multiply driven signals are C07's business; here only behaviour counts)
-    system = FifoSystem(sim, cfg) if cfg[0] == "fifo" else StackSystem(sim, cfg)
+    system = {"fifo": FifoSystem, "fifo2": Fifo2System, "stack": StackSystem}[cfg[0]](sim, cfg)
     return "ok", system
 
 
@@ -374,7 +451,7 @@ def run_config(cfg):
         out.update(states=r.states, transitions=r.transitions, depth=r.depth, exhausted=r.exhausted,
                    observations=len(r.observations), pushes=system.n_push, pops=system.n_pop,
                    occ=sorted(system.seen_occ))
-        if cfg[0] == "fifo":
+        if cfg[0] in ("fifo", "fifo2"):
             out["both"] = system.n_both
         else:
             out["drops"] = system.n_drop
@@ -392,6 +469,10 @@ def run_config(cfg):
             out.update(status="violation", kind="occupancy", trace=[],
                        what=f"occupancy {missing} of 0..{cap} is never reached in the complete reachable state space")
             return out
+        if cfg[0] == "fifo2":
+            v = liveness_fifo2(system, space, out)
+            if v is not None:
+                out.update(status="violation", kind=v[0], trace=v[1], what=v[2])
         if cfg[0] == "fifo" and not system.exact:
             v = liveness_fifo(system, space, out)
             if v is not None:
@@ -424,6 +505,11 @@ def replay_config(cfg, kind, trace):
     if kind in ("drain", "fill"):
         ch = (0, 0, 1) if kind == "drain" else (1, 0, 0)
         goal = (lambda: len(system.m.q) == 0) if kind == "drain" else (lambda: len(system.m.q) == cap)
+        if cfg[0] == "fifo2":
+            ch = ch + ch
+            qs = lambda: (system.f[0].m.q, system.f[1].m.q)
+            goal = (lambda: not qs()[0] and not qs()[1]) if kind == "drain" else \
+                (lambda: len(qs()[0]) == cap and len(qs()[1]) == cap)
         seen = set()
         s = start
         while s not in seen:
@@ -469,11 +555,12 @@ def size_estimate(cfg):
     if cfg[0] == "stack":
         return (1 << W.width(cfg[1])) ** cfg[2]
     _, T, n, tx, rx, c = cfg
-    return (1 << W.width(T)) ** n * n * n * (1 if tx == rx == 0 else 8 * (tx + rx + 1) * n)
+    est = (1 << W.width(T)) ** n * n * n * (1 if tx == rx == 0 else 8 * (tx + rx + 1) * n)
+    return est * est if cfg[0] == "fifo2" else est
 
 
 def main(run: Run):
-    cfgs = W.fifo_configs(run.thorough) + W.stack_configs(run.thorough)
+    cfgs = W.fifo_configs(run.thorough) + W.stack_configs(run.thorough) + W.fifo2_configs(run.thorough)
     cfgs.sort(key=size_estimate, reverse=True)
     run.count("configurations", len(cfgs))
     explored = 0
